@@ -14,7 +14,7 @@ pub const DEF: PropDef = PropDef {
     run,
     replay,
     level: "fault_enumeration",
-    rule: "fault enumeration on transport messages: (pattern class interactive/one-way, cipher, hash, DH, backend default / ring-first, direction, payload length 0, 1, 33, 65519 and one entry per configuration of a ladder 2..17, 100, 1000, 4080, 4096, 9000, 12288, 16384, 32768, 65503, 65518, number of genuine messages already exchanged) x forgery: single-bit flips (boundary + random; ALL bits in thorough), every truncation incl. < 16 bytes, extensions, reflection to the sender, same-index message of a second session with other keys, a later message delivered early, a replay of an accepted message, random and all-zero byte strings of 16 / 17 / message length; stateless mode: a genuine message for nonce n presented under n' != n with n' = n ^ (1<<b) for all 64 b, boundary values and random 64-bit values. Oracle: the forged delivery returns Err, and afterwards the genuine message for this session, direction and nonce is accepted and returns exactly the written payload. Non-trivial = a forged/misdirected delivery against a session that accepts the genuine message; distinct by (config, forgery)",
+    rule: "fault enumeration on transport messages: (pattern class interactive/one-way, cipher, hash, DH, backend default / ring-first, direction, payload length 0, 1, 33, 65519 and one entry per configuration of a ladder 2..17, 100, 1000, 4080, 4096, 9000, 12288, 16384, 32768, 65503, 65518, number of genuine messages already exchanged) x forgery: single-bit flips (boundary + random; ALL bits in thorough), every truncation incl. < 16 bytes, extensions, reflection to the sender, same-index message of a second session with other keys, a later message delivered early, a replay of an accepted message, the genuine message after the receiver was repositioned (set_receiving_nonce) to another message number - 1 or 2 back, +1, +2^32, ^2^40, ^2^56, ^2^63 -, random and all-zero byte strings of 16 / 17 / message length; stateless mode: a genuine message for nonce n presented under n' != n with n' = n ^ (1<<b) for all 64 b, boundary values and random 64-bit values. Oracle: the forged delivery returns Err, and afterwards the genuine message for this session, direction and nonce is accepted and returns exactly the written payload. Non-trivial = a forged/misdirected delivery against a session that accepts the genuine message; distinct by (config, forgery)",
     technique: "fault enumeration with accept-iff-genuine oracle over both cipher backends; proptest for random forgeries and nonce pairs (+ libFuzzer target tr_forge in the thorough tier: coverage-guided XOR masks / cuts / extensions over the genuine transport message, judged by the same oracle)",
     assumptions: &["cryptographic strength is not tested: forgeries are alterations of genuine traffic, not attempts to find tag collisions"],
     panic_is_violation: false,
@@ -37,6 +37,10 @@ pub enum Forgery {
     Garbage(usize),
     /// an all-zero message of this length
     Zeros(usize),
+    /// stateful: the receiver is repositioned with set_receiving_nonce(n') to another message
+    /// number (n' = n - d for d = 1..=prior, or n + 2^32 / n ^ 2^k) and then given the genuine
+    /// message written for n: it was not written for n', so it must be refused
+    Reposition(u8),
     /// byte-level forgery from the fuzzer: the genuine message cut by `trunc` bytes (modulo its
     /// length), XORed with `mask`; mask bytes beyond the message are appended
     Mask { trunc: u16, mask: Vec<u8> },
@@ -283,6 +287,32 @@ fn oracle(c: &Case, acc: &mut Acc) -> CaseResult {
                 acc.skip("nonce substitution applies to stateless mode");
                 return Ok(());
             },
+            Forgery::Reposition(k) => {
+                let n = r.receiving_nonce();
+                let n2 = match *k % 8 {
+                    0 if n >= 1 => n - 1,
+                    1 if n >= 2 => n - 2,
+                    2 => n.wrapping_add(1 << 32),
+                    3 => n ^ (1 << 56),
+                    4 => n ^ (1 << 63),
+                    5 => n.wrapping_add(1),
+                    6 => n ^ (1 << 40),
+                    _ => 0,
+                };
+                if n2 == n || n2 == u64::MAX {
+                    acc.skip("repositioning not applicable");
+                    return Ok(());
+                }
+                for rep in 0..1 + c.again % 3 {
+                    r.set_receiving_nonce(n2);
+                    let mut buf = forged_buf(c.fbuf.wrapping_add(rep), genuine.len());
+                    let res = r.read_message(&genuine, &mut buf);
+                    ensure!(res.is_err(), "{what}: the receiver was repositioned to message number {n2} and then ACCEPTED the message written for number {n}: {res:?}");
+                }
+                // back where the genuine message belongs
+                r.set_receiving_nonce(n);
+                genuine.clone()
+            },
         };
         if forged != genuine {
             for rep in 0..1 + c.again % 3 {
@@ -367,7 +397,7 @@ pub fn run(ctx: &Ctx) {
                         f.push(Forgery::Extend(k));
                     }
                 }
-                f.extend([Forgery::Reflect, Forgery::OtherSession, Forgery::OtherSessionSameStatics, Forgery::Early, Forgery::Replay, Forgery::Garbage(total), Forgery::Garbage(16), Forgery::Garbage(0), Forgery::Zeros(total), Forgery::Zeros(16), Forgery::Zeros(17)]);
+                f.extend([Forgery::Reflect, Forgery::OtherSession, Forgery::OtherSessionSameStatics, Forgery::Early, Forgery::Replay, Forgery::Garbage(total), Forgery::Garbage(16), Forgery::Garbage(0), Forgery::Zeros(total), Forgery::Zeros(16), Forgery::Zeros(17), Forgery::Reposition((ci + pk) as u8), Forgery::Reposition((ci + pk + 3) as u8), Forgery::Reposition((ci * 3 + pk + 5) as u8)]);
                 f.dedup();
                 for (fi, forgery) in f.into_iter().enumerate() {
                     for stateless in [false, true] {
